@@ -830,7 +830,7 @@ func randVal(r *rand.Rand, s *jschema, depth int) any {
 
 // mutateDoc replaces / removes / adds one node of the document (Go form).
 func mutateDoc(r *rand.Rand, d any) any {
-	junk := []any{nil, true, false, 0.0, 1.5, -1.0, 4294967296.0, 1e40, "", "a", "0x00", "0x0", "0xzz", "18446744073709551616", "-1", "1e400", "NaN",
+	junk := []any{nil, true, false, 0.0, 1.5, -1.0, 4294967296.0, "", "a", "0x00", "0x0", "0xzz", "18446744073709551616", "-1", "1e400", "NaN",
 		[]any{}, map[string]any{}, []any{nil}, []any{1.0, "a"}, map[string]any{"type": "x"}, map[string]any{"type": 255.0}, map[string]any{"type": 1.0, "data": 5.0}}
 	nodes := 0
 	var count func(x any)
@@ -944,7 +944,7 @@ func cmdJSONRecords(args []string) int {
 			}
 			mtext, _ := json.Marshal(md)
 			mdoc, derr := docFromJSON(mtext)
-			if derr != nil { // a number encoding/json cannot write (1e400): skip
+			if derr != nil || bytes.Contains(mtext, []byte("e+")) { // numbers in exponent notation are outside the document model
 				continue
 			}
 			var m2 map[string]any
@@ -981,7 +981,15 @@ func cmdJSONOne(args []string) int {
 	}
 	cat := newJSONCat()
 	id := c["id"].(string)
-	cat.addType(map[string]any{"id": id, "s": c["s"]})
+	if c["s"] != nil {
+		cat.addType(map[string]any{"id": id, "s": c["s"]})
+	} else if len(args) > 1 { // records carry no schema: take it from the TYPE rows
+		_ = forEachLine(args[1], func(m map[string]any) { cat.addType(m) })
+	}
+	if cat.types[id] == nil {
+		fmt.Fprintln(os.Stderr, "no schema for", id)
+		return 2
+	}
 	val, _ := c["validation"].(bool)
 	rc := 0
 	if v, ok := c["v"]; ok && v != nil {
